@@ -5,7 +5,9 @@
 (*           hand-checked int -> double vectors.                                           *)
 (*   Enum  : (B) boundary traces: round trips of boundary values with aliasing probes,     *)
 (*           script results, exposed callables; (I) ALL interleavings of set / get / eval  *)
-(*           on two names of exactly L events (shorter ones are their prefixes).           *)
+(*           on two names of exactly L events (shorter ones are their prefixes); (C) ALL   *)
+(*           call histories: one function value made from the exposed callable, invoked    *)
+(*           L times through every invocation form.                                        *)
 (*   Judge : every recorded trace is folded through the store of copies, event by event;   *)
 (*           a mismatch records clause + index, adopts the observation and keeps going.    *)
 EXTENDS Boundary, Json, IOUtils
